@@ -440,6 +440,7 @@ class C10:
                 twin, exc = call(lambda: OWorld(ctx.xd, spec, twist=(tt, 2.5)))
                 if exc is not None:
                     twin = None
+            dirty = False
             n_dis = None        # log length when the twin target was switched off; rows before it legitimately differ
             if twin is not None:
                 w.opt.disable(target=tt)
@@ -481,8 +482,12 @@ class C10:
                     count("call_raised:" + type(exc).__name__)
                 check_call_error(prop, where, c, exc)
                 # ---- limits on every new row and in the containers
+                if c[0] in ("step", "solve") and exc is not None and not (c[0] == "solve" and spec["opts"]["restore_if_fail"]):
+                    dirty = True         # the knobs may be left at a finite-difference probe point until they are rewritten
+                elif c[0] in ("step", "solve", "reload") and exc is None:
+                    dirty = False
                 if c[0] != "set_knob":
-                    check_limits(w, prop, where, n0, containers=(exc is None))
+                    check_limits(w, prop, where, n0, containers=(exc is None and not dirty))
                 if c[0] in ("step", "solve"):
                     steps_checked += check_max_step(w, prop, where, n0 + 1)
                     # ---- knobs disabled for this call keep their value (in every row of the call and at the end)
